@@ -201,6 +201,233 @@ impl Prop for Positions {
 }
 
 /// Exhaustive small documents over a 6-letter alphabet (all strings up to length n).
+// ---------------------------------------------------------------------------
+// Part (b): document symbols reported by the real language server (LSP over stdio).
+
+pub struct Symbols;
+
+fn gen_items(c: &mut Choices, depth: usize, out: &mut String, indent: usize, counter: &mut u32) {
+    let n = 1 + c.below(4);
+    for _ in 0..n {
+        *counter += 1;
+        let id = *counter;
+        let pad = " ".repeat(indent);
+        if c.chance(1, 3) {
+            out.push_str(&format!("{pad}{}\n", c.pick_str(&["// plain comment", "// 😀 astral in a comment", "/* 世界 */", "// é", "/* 𝒳𝒴 */ // two"])));
+        }
+        match c.below(if depth == 0 { 7 } else { 9 }) {
+            0 => out.push_str(&format!("{pad}fn f{id}(a: Int64): Int64 {{ let s = \"{}\"; a }}\n", c.pick_str(&["x", "😀", "é世", ""]))),
+            1 => out.push_str(&format!("{pad}struct S{id} {{ a: Int64, b{id}: String }}\n")),
+            2 => out.push_str(&format!("{pad}class C{id} {{ x: Int64, y{id}: Bool }}\n")),
+            3 => out.push_str(&format!("{pad}enum E{id} {{ A, B{id}(Int64), C }}\n")),
+            4 => out.push_str(&format!("{pad}trait T{id} {{ fn m{id}(): Int64; fn n(): Bool {{ true }} }}\n")),
+            5 => out.push_str(&format!("{pad}const K{id}: Int64 = {};\n", id)),
+            6 => out.push_str(&format!("{pad}let mut g{id}: Int64 = 0;\n")),
+            7 => {
+                out.push_str(&format!("{pad}impl C{} {{\n", id.saturating_sub(1)));
+                for k in 0..(1 + c.below(3)) {
+                    out.push_str(&format!("{pad}    {}fn m{id}_{k}(): Int64 {{ {k} }}\n", if c.chance(1, 3) { "static " } else { "" }));
+                }
+                out.push_str(&format!("{pad}}}\n"));
+            }
+            _ => {
+                out.push_str(&format!("{pad}mod m{id} {{\n"));
+                gen_items(c, depth - 1, out, indent + 4, counter);
+                out.push_str(&format!("{pad}}}\n"));
+            }
+        }
+        if c.chance(1, 4) {
+            out.push('\n');
+        }
+    }
+}
+
+/// (line, utf-16 column) of the end of the document, by the same independent line scan as part (a)
+fn doc_end(text: &str) -> (u64, u64) {
+    let naive = naive_line_starts(text);
+    let last = *naive.last().unwrap_or(&0) as usize;
+    ((naive.len().max(1) - 1) as u64, text[last..].chars().map(|c| c.len_utf16() as u64).sum())
+}
+
+fn line_width(text: &str, line: u64) -> Option<u64> {
+    let naive = naive_line_starts(text);
+    let l = line as usize;
+    if l >= naive.len() {
+        return None;
+    }
+    let s = naive[l] as usize;
+    let e = if l + 1 < naive.len() { naive[l + 1] as usize } else { text.len() };
+    Some(text[s..e].chars().map(|c| c.len_utf16() as u64).sum())
+}
+
+fn pos_of(v: &Value) -> Option<(u64, u64)> {
+    Some((v["line"].as_u64()?, v["character"].as_u64()?))
+}
+
+struct SymStats {
+    symbols: usize,
+    nested: usize,
+}
+
+fn check_symbol(text: &str, sym: &Value, parent: Option<((u64, u64), (u64, u64))>, end: (u64, u64), st: &mut SymStats) -> Result<(), (String, String)> {
+    st.symbols += 1;
+    let name = sym["name"].as_str().unwrap_or("?");
+    let r = (pos_of(&sym["range"]["start"]), pos_of(&sym["range"]["end"]));
+    let sr = (pos_of(&sym["selectionRange"]["start"]), pos_of(&sym["selectionRange"]["end"]));
+    let ((Some(rs), Some(re)), (Some(ss), Some(se))) = (r, sr) else {
+        return Err(("symbol-malformed".into(), format!("symbol {name:?} lacks range/selectionRange: {sym}")));
+    };
+    if rs > re || ss > se {
+        return Err(("symbol-range-inverted".into(), format!("symbol {name:?}: range {rs:?}..{re:?}, selection {ss:?}..{se:?}")));
+    }
+    if re > end {
+        return Err(("symbol-range-outside-document".into(), format!("symbol {name:?}: range ends at {re:?}, the document ends at {end:?}")));
+    }
+    for (what, p) in [("range start", rs), ("range end", re), ("selection start", ss), ("selection end", se)] {
+        match line_width(text, p.0) {
+            Some(w) if p.1 <= w => {}
+            other => return Err(("symbol-position-not-in-document".into(), format!("symbol {name:?}: {what} {p:?} is not a position of the document (line width {other:?})"))),
+        }
+    }
+    if ss < rs || se > re {
+        return Err(("selection-outside-range".into(), format!("symbol {name:?}: selection {ss:?}..{se:?} not inside range {rs:?}..{re:?}")));
+    }
+    if let Some((ps, pe)) = parent {
+        st.nested += 1;
+        if rs < ps || re > pe {
+            return Err(("child-outside-parent".into(), format!("symbol {name:?}: range {rs:?}..{re:?} not inside its parent's range {ps:?}..{pe:?}")));
+        }
+    }
+    if let Some(ch) = sym["children"].as_array() {
+        for c in ch {
+            check_symbol(text, c, Some((rs, re)), end, st)?;
+        }
+    }
+    Ok(())
+}
+
+impl Prop for Symbols {
+    type Case = TextCase;
+    fn name(&self) -> &str {
+        "symbols"
+    }
+    fn generate(&self, c: &mut Choices) -> TextCase {
+        let mode = c.weighted(&[5, 2, 2]);
+        let mut t = match mode {
+            0 => {
+                let mut s = String::new();
+                let mut counter = 0;
+                gen_items(c, 3, &mut s, 0, &mut counter);
+                // damage: truncation / stray delimiter, so that error recovery shapes the tree
+                match c.below(5) {
+                    1 => {
+                        let mut cut = c.below(s.len() + 1);
+                        while !s.is_char_boundary(cut) {
+                            cut -= 1;
+                        }
+                        s.truncate(cut);
+                    }
+                    2 => {
+                        let mut pos = c.below(s.len() + 1);
+                        while !s.is_char_boundary(pos) {
+                            pos -= 1;
+                        }
+                        s.insert_str(pos, c.pick_str(&["}", "{", "(", "😀", "\r", "fn", "mod x {"]));
+                    }
+                    _ => {}
+                }
+                let le = c.weighted(&[4, 2, 1, 2]);
+                if le != 0 {
+                    s = textgen::line_endings(c, &s, le);
+                }
+                TextCase { family: format!("declarations/{}", textgen::LINE_ENDINGS[le]), text: s }
+            }
+            1 => textgen::gen_text_case(c),
+            _ => {
+                let small = textgen::small_corpus(4000);
+                let (p, base) = small[c.below(small.len())];
+                let le = c.below(4);
+                let s = if le != 0 { textgen::line_endings(c, base, le) } else { base.clone() };
+                TextCase { family: format!("repo-file:{}/{}", p.display(), textgen::LINE_ENDINGS[le]), text: s }
+            }
+        };
+        if textgen::max_bracket_depth(&t.text) > 64 {
+            t.text.clear();
+        }
+        t
+    }
+    fn eval(&self, case: &TextCase) -> Outcome {
+        let h = hash64(&case.text);
+        let mut s = match crate::lspdrive::Session::start("c20-lsp") {
+            Ok(s) => s,
+            Err(e) => return Outcome { inconclusive: Some(e), hash: h, ..Default::default() },
+        };
+        let uri = s.open("doc.dora", &case.text);
+        let resp = s.request("textDocument/documentSymbol", json!({"textDocument": {"uri": uri}}), std::time::Duration::from_secs(30));
+        let panicked = s.panicked();
+        let stderr_tail = truncate_str(&s.stderr_text(), 600);
+        let out = match (&resp, &panicked) {
+            (_, Some(p)) => Outcome::fail(h, format!("server-panic:{}", normalise_msg(p.split('|').nth(1).unwrap_or(p).trim())), format!("the language server panicked while analysing the document: {p}")),
+            (Err(e), None) => Outcome::fail(h, "no-response:documentSymbol", format!("{e:?}; server stderr: {stderr_tail}")),
+            (Ok(v), None) => {
+                if let Some(err) = v.get("error") {
+                    Outcome::fail(h, "error-response:documentSymbol", format!("{err}"))
+                } else {
+                    let end = doc_end(&case.text);
+                    let mut st = SymStats { symbols: 0, nested: 0 };
+                    let mut res = Ok(());
+                    if let Some(arr) = v["result"].as_array() {
+                        for sym in arr {
+                            res = check_symbol(&case.text, sym, None, end, &mut st);
+                            if res.is_err() {
+                                break;
+                            }
+                        }
+                    }
+                    match res {
+                        Err((k, m)) => Outcome::fail(h, k, m),
+                        Ok(()) => Outcome::pass(h, st.nested > 0)
+                            .class_if(st.nested > 0, "nested-symbols")
+                            .class_if(st.symbols > 0, "has-symbols")
+                            .class_if(case.text.chars().any(|c| c.len_utf16() == 2), "astral-characters")
+                            .class_if(case.text.contains('\r'), "has-CR")
+                            .class(format!("family:{}", case.family.split(|c| c == ':' || c == '/').next().unwrap_or(""))),
+                    }
+                }
+            }
+        };
+        s.finish();
+        out
+    }
+    fn render(&self, case: &TextCase) -> Value {
+        json!({"family": case.family, "text": case.text})
+    }
+    fn from_rendered(&self, v: &Value) -> Option<TextCase> {
+        Some(TextCase { family: v["family"].as_str().unwrap_or("replay").into(), text: v["text"].as_str()?.to_string() })
+    }
+    fn minimize(&self, case: &TextCase, fails: &dyn Fn(&TextCase) -> bool) -> Option<TextCase> {
+        let fam = case.family.clone();
+        let t = ddmin_text(&case.text, &|s| fails(&TextCase { family: fam.clone(), text: s.to_string() }), 300);
+        Some(TextCase { family: fam, text: t })
+    }
+}
+
+pub fn run_symbols(ctx: &mut Ctx) {
+    let p = Symbols;
+    if !crate::lspdrive::exists() {
+        ctx.inconclusive.push("symbols: dora-language-server has not been built".into());
+        ctx.extra.insert("hard_inconclusive".into(), json!("language server binary missing"));
+        return;
+    }
+    ctx.run_regressions(&p);
+    ctx.run_known_reproducers(&p);
+    let n = ctx.n(600, 12_000);
+    ctx.run_search(&p, n, 200, 60);
+    ctx.require_class("symbols/nested-symbols");
+    ctx.require_class("symbols/astral-characters");
+    ctx.require_class("symbols/has-CR");
+}
+
 pub fn exhaustive_small(n: usize) -> Vec<PosCase> {
     let alpha = ["a", "😀", "é", "\n", "\r", "世"];
     let mut out = vec![PosCase { text: TextCase { family: "exhaustive".into(), text: String::new() }, extra: vec![] }];
@@ -243,6 +470,7 @@ pub fn main(mode: Mode) -> i32 {
             let mut ctx = Ctx::new("C20", "quick");
             match doc["sub"].as_str() {
                 Some("positions") => ctx.replay(&Positions, &doc),
+                Some("symbols") => ctx.replay(&Symbols, &doc),
                 other => {
                     println!("unknown sub-check {other:?}");
                     2
@@ -252,8 +480,9 @@ pub fn main(mode: Mode) -> i32 {
         Mode::Run(tier) => {
             let mut ctx = Ctx::new("C20", &tier);
             start_watchdog(120, "C20");
-            ctx.rule = "positions: every document over the alphabet {a, 😀, é, LF, CR, 世} up to a length bound (exhaustive), plus proptest choice sequences decoded into dense alphabet texts, C06/C16 text families and repo files with rewritten line endings and inserted astral characters; for each text EVERY char-boundary offset is converted to (line, UTF-16 column) and back (must be identical and equal to an independent recomputation), every (line, column) with line <= lines+2, column <= width+3 plus extreme values must map to a char boundary inside the document; compute_line_starts must equal a naive scan. non-trivial = text with an offset adjacent to an astral character or inside a CR LF pair; distinct by text hash".into();
+            ctx.rule = "positions: every document over the alphabet {a, 😀, é, LF, CR, 世} up to a length bound (exhaustive), plus proptest choice sequences decoded into dense alphabet texts, C06/C16 text families and repo files with rewritten line endings and inserted astral characters; for each text EVERY char-boundary offset is converted to (line, UTF-16 column) and back (must be identical and equal to an independent recomputation), every (line, column) with line <= lines+2, column <= width+3 plus extreme values must map to a char boundary inside the document; compute_line_starts must equal a naive scan. non-trivial = text with an offset adjacent to an astral character or inside a CR LF pair; distinct by text hash. symbols: generated declaration files (functions, structs, classes, enums, traits, impls, nested modules to depth 3, astral characters in comments and strings, LF/CRLF/CR/mixed endings, truncated or with a stray delimiter), C06 text families and repo files are opened in the real dora-language-server over LSP stdio (one server process per document) and textDocument/documentSymbol is requested; every reported range must consist of positions of the document (line exists, UTF-16 column <= line width, by the independent line scan), end inside the document, start <= end, selectionRange inside range, child ranges inside the parent range; a response must arrive and the server must not panic. non-trivial (symbols) = document with at least one nested symbol".into();
             run_positions(&mut ctx);
+            run_symbols(&mut ctx);
             ctx.finish()
         }
     }
